@@ -178,6 +178,16 @@ func (e *Environment) SaveGlobals(to io.Writer, maxValueLen int) (int, error) {
 			//   x=func(a,b){a+b}
 			// fallthrough.
 		}
+		if v.Type() == FUNC {
+			if f := v.(Function); f.Name != nil {
+				// A named function held by a variable of another name: saved without its name (g=x=>...), as
+				// g=func f(x){...} would also (re)define f when loaded.
+				f.Name = nil
+				f.Lambda = true
+				SetCacheKey(&f) // its printed form.
+				v = f
+			}
+		}
 		val, ok := sourceForm(v)
 		if !ok {
 			log.Warnf("Skipping %q as it's nested too deep", k)
@@ -205,7 +215,8 @@ func (e *Environment) SaveGlobals(to io.Writer, maxValueLen int) (int, error) {
 // ok is false for a value nested too deep to be written (and read back).
 func sourceForm(v Object) (string, bool) {
 	out := strings.Builder{}
-	w := inspector{out: &out, source: true}
+	// (half of it less a margin: reading a map back takes the parser two levels per level of nesting)
+	w := inspector{out: &out, source: true, limit: MaxInspectDepth/2 - 100}
 	w.object(v, 0)
 	return out.String(), !w.cut
 }
